@@ -192,6 +192,55 @@ def wl_long(ctx, rng, case):
     case.nontrivial = stats["capacity_changes"] > 0
 
 
+def wl_big_crowded(ctx, rng, case):
+    """a BIG table (300 .. 1200 buckets) with the default budget of 500 kicks, filled with distinct keys to the brim without growing: the
+    last additions need kick walks of hundreds of steps that still succeed (or fail and are undone).  Every key that went in is probed
+    after every addition in the crowded phase; a handful of random resolutions of the choices per case."""
+    import probables as P
+    from probables.exceptions import CuckooFilterFullError
+
+    counting = case.index % 2 == 1
+    cap, bsz = rng.choice([(400, 2), (300, 2), (1200, 1), (350, 3)])
+    swaps = rng.choice([500, 500, 300, 1000])
+    cls = P.CountingCuckooFilter if counting else P.CuckooFilter
+    case.desc = {"cls": cls.__name__, "capacity": cap, "bucket_size": bsz, "max_swaps": swaps, "kind": "big crowded table"}
+    longest = 0
+    rngscript.start([], fallback=_stdrandom.Random(rng.getrandbits(32)))
+    try:
+        f = cls(capacity=cap, bucket_size=bsz, max_swaps=swaps, auto_expand=False, finger_size=4)
+        present = []
+        refused = 0
+        i = 0
+        while refused < 80 and i < int(cap * bsz * 1.25):
+            key = f"crowd-{case.index}-{i}"
+            i += 1
+            n0 = len(rngscript.S.trace)
+            try:
+                f.add(key)
+                present.append(key)
+                if len(rngscript.S.trace) - n0 >= 128:
+                    ctx.count("big_crowded.successful_walks_of_128_or_more_decisions")
+            except CuckooFilterFullError:
+                refused += 1
+                ctx.count("failed_adds")
+            longest = max(longest, len(rngscript.S.trace) - n0)
+            if len(present) > 0.8 * cap * bsz:
+                ctx.counters["oracle_evaluations"] += len(present)
+                missing = [k for k in present if not f.check(k)]
+                if missing:
+                    ctx.fail(f"{len(missing)} keys that were added and never removed are reported absent after addition #{i} of a crowded {cap}x{bsz} table "
+                             f"(the last call took {len(rngscript.S.trace) - n0} random decisions)", first=missing[:4], load=len(present) / (cap * bsz))
+                ctx.count("probes")
+        ctx.maximum("longest_kick_walk_decisions", longest)
+        if longest >= 128:
+            ctx.count("big_crowded.cases_with_walks_of_128_or_more_kicks")
+        ctx.count("resolutions_executed")
+        ctx.count("decisions_taken", len(rngscript.S.trace))
+    finally:
+        rngscript.stop()
+    case.nontrivial = longest >= 20
+
+
 def wl_after_refusals(ctx, rng, case):
     """life goes on after refused calls: a crowded auto-expanding table whose expansions are refused (non-growing rate, or too few swaps), with
     keys added more than once; then the rate is raised, most keys are removed again completely, the table is expanded explicitly and refilled.
@@ -339,6 +388,7 @@ PROP = Prop(
         Workload("explore", wl_explore, quick=200, thorough=3500),
         Workload("long", wl_long, quick=60, thorough=3000),
         Workload("crowd", wl_crowd, quick=16, thorough=320),
+        Workload("big_crowded", wl_big_crowded, quick=8, thorough=100),
         Workload("after_refusals", wl_after_refusals, quick=100, thorough=1500),
     ],
     assumptions=["fingerprint model uses an independent FNV-1a (ASCII/bytes keys); keys whose raw fingerprint is 0 (the empty-slot marker) appear only in the zero_fingerprint workload, whose histories contain no removals (how 0 is remapped is the library's choice)",
